@@ -1,8 +1,11 @@
 (* C03 — pinned laws of the reference semantics for pattern matching and unpacking. *)
 From KV.core Require Import Ast Sem SemProofs.
 
-Theorem wildcard_always_matches : forall f s v e, match_pat (S f) s PWild v e = MYes e.
+Theorem wildcard_always_matches : forall f s v e, match_pat (S f) s (PWild None) v e = MYes e.
 Proof. exact SemProofs.wildcard_always_matches. Qed.
+Theorem typed_wildcard_matches_iff_hint : forall f s h v e,
+  match_pat (S f) s (PWild (Some h)) v e = if hint_ok h v then MYes e else MNo.
+Proof. exact SemProofs.typed_wildcard_matches_iff_hint. Qed.
 Theorem id_always_matches_and_binds : forall f s x v e, match_pat (S f) s (PId x None) v e = MYes (update x v e).
 Proof. exact SemProofs.id_always_matches_and_binds. Qed.
 Theorem typed_id_matches_iff_hint : forall f s x h v e,
@@ -39,6 +42,7 @@ Theorem unpack_extras_ignored : forall f s x v w e,
 Proof. exact SemProofs.unpack_extras_ignored. Qed.
 
 Print Assumptions wildcard_always_matches.
+Print Assumptions typed_wildcard_matches_iff_hint.
 Print Assumptions id_always_matches_and_binds.
 Print Assumptions typed_id_matches_iff_hint.
 Print Assumptions literal_matches_by_equality.
@@ -56,6 +60,12 @@ Example first_arm_wins :
                   [([[PTuple [PId 0%N None; PId 1%N None]]], None, ETuple [EInt 10; EId 0%N; EId 1%N]);
                    ([[PTupleRest [PInt 1] None []]], None, EInt 20)] None))
   = RVal (VTuple [VInt 10; VInt 1; VInt 2]).
+Proof. vm_compute. reflexivity. Qed.
+Example typed_wildcard_alternatives :
+  (* match 'abc': _: Number or _: String then 1; else 2 *)
+  fst (run 100 (EMatch [EStr [97%N]]
+                  [([[PWild (Some (mkhint ty_Number false))]; [PWild (Some (mkhint ty_String false))]], None, EInt 1)]
+                  (Some (EInt 2)))) = RVal (VInt 1).
 Proof. vm_compute. reflexivity. Qed.
 Example ellipsis_on_unsized_subject_falls_through :
   fst (run 100 (EMatch [EInt 1] [([[PTupleRest [PId 0%N None] (Some 1%N) []]], None, EInt 1);
